@@ -6,17 +6,30 @@
 
 uint32_t time_now(void) { return 0; }
 #define NFMT 1024
-static char fmts[NFMT][32];
+static char fmts[NFMT][360];
+#define PADLEN 300
 static unsigned long nextid;
 
-static void init_fmts(void) { for (int i = 0; i < NFMT; i++) snprintf(fmts[i], sizeof(fmts[i]), "f%d %%lu %%lu %%lu\n", i); }
+static void init_fmts(void)
+{
+	for (int i = 0; i < NFMT; i++) {
+		int n = snprintf(fmts[i], sizeof(fmts[i]), "f%d %%lu %%lu %%lu", i);
+		if (i % 64 == 7) { memset(fmts[i] + n, 'x', PADLEN); n += PADLEN; }      /* a line longer than 256 characters */
+		fmts[i][n] = '\n'; fmts[i][n + 1] = 0;
+	}
+}
 static long parse(const char *s)
 {
 	int fi;
 	unsigned long a, b, c;
 	if (!s) return -1;
-	if (sscanf(s, "f%d %lu %lu %lu", &fi, &a, &b, &c) != 4) return -2;
+	int used = 0;
+	if (sscanf(s, "f%d %lu %lu %lu%n", &fi, &a, &b, &c, &used) != 4) return -2;
 	if (fi != (int)(a % NFMT) || b != (a ^ 0x5555ul) || c != a * 3) return -2;
+	/* the complete text must be there: padding (if this format has any) and nothing else */
+	size_t want = (fi % 64 == 7) ? PADLEN : 0, have = 0;
+	while (s[used + have] == 'x') have++;
+	if (have != want || (s[used + have] != 0 && s[used + have] != '\n')) return -2;
 	return (long)a;
 }
 static void do_log(int nice)
@@ -35,6 +48,11 @@ static void do_read(int k)
 }
 static void do_readall(void) { for (int k = -2; k <= 257; k++) do_read(k); }
 static void do_readsome(void) { static const int ks[] = { -1, 0, 1, 2, 127, 128, 254, 255, 256 }; for (unsigned i = 0; i < 9; i++) do_read(ks[i]); }
+static void do_readfar(void)
+{
+	static const int ks[] = { 65536, 65537, 65536 + 255, -65536, -65535, 131072, 1 << 24, 0x7fffffff, (int)0x80000000u, (int)0x80000001u, -256, 512, 256 + 65536 };
+	for (unsigned i = 0; i < sizeof(ks) / sizeof(ks[0]); i++) do_read(ks[i]);
+}
 static void do_dump(void)
 {
 	char *buf = NULL;
@@ -79,6 +97,7 @@ int main(void)
 				do_log(i % 5 == 0);
 				if (full || i % 64 < 3 || i % 256 > 252 || i < 8) do_readall(); else do_readsome();
 				if (i % 97 == 0 || i == 256 || i == 257) do_dump();
+				if (i == 1 || i == 3 || i == 255 || i == 256 || i == 300 || i == 700) do_readfar();
 				if (i == 255 || i == 256 || i == 257 || i == 300 || i == 2 * 256 + 3) { do_log(1); do_readsome(); }
 			}
 			do_clear(); do_readsome(); do_log(1); do_readsome();
@@ -100,6 +119,15 @@ int main(void)
 				do_log(i % 7 == 0);
 				if (full || (i > 80 && i < 100) || (i > 336 && i < 356) || i % 50 == 0) do_readall(); else do_readsome();
 				if (i % 101 == 0) do_dump();
+			}
+		}
+		else if (drv_is(&c, "NiceFar")) {
+			static const unsigned counts[] = { 65536, 131072, 1u << 20, 1u << 30, 65536 + 256, 0x10000u * 3 };
+			for (unsigned k = 0; k < sizeof(counts) / sizeof(counts[0]); k++) {
+				do_clear();
+				do_setcount(counts[k]);
+				for (int i = 0; i < 256; i++) do_log(0);
+				do_log(1); do_readsome(); do_log(1); do_dump(); do_readfar();
 			}
 		}
 		else if (drv_is(&c, "Random")) {
